@@ -461,7 +461,7 @@ void mon_note(const char *fmt, ...) {
 }
 
 const char *mon_hex(const void *src, size_t n, size_t max) {
-    static __thread char bufs[4][1100];
+    static __thread char bufs[4][1100 + 32];
     static __thread int which;
     char *out = bufs[which++ & 3];
     if (max > 512) {
@@ -474,7 +474,7 @@ const char *mon_hex(const void *src, size_t n, size_t max) {
         o += (size_t)snprintf(out + o, 4, "%02x", p[i]);
     }
     if (n > m) {
-        snprintf(out + o, 16, "..(+%zu)", n - m);
+        snprintf(out + o, 32, "..(+%zu)", n - m);
     } else {
         out[o] = 0;
     }
